@@ -4,6 +4,7 @@ import (
 	"fmt"
 	"go/token"
 	"go/types"
+	"sort"
 	"strings"
 
 	"golang.org/x/tools/go/ssa"
@@ -34,7 +35,7 @@ func (x *Exec) doCall(st *State, c *ssa.CallCommon, pos token.Pos) []Outcome {
 		// user code that may reconfigure the library's objects through the public API: those arrays are havocked
 		x.trusted["A-cb-init: a CmdInitializer reconfigures commands only through the public API (modelled as an arbitrary change of the declared heap arrays)"] = true
 		for _, n := range arrs {
-			for _, hn := range x.reg.heapOrd {
+			for _, hn := range x.reg.HeapNames() {
 				if hn == n || (strings.HasSuffix(n, "*") && strings.HasPrefix(hn, strings.TrimSuffix(n, "*"))) {
 					x.heapHavoc(st, hn, true, st.allocCtr)
 				}
@@ -49,7 +50,7 @@ func (x *Exec) doCall(st *State, c *ssa.CallCommon, pos token.Pos) []Outcome {
 func (x *Exec) mutatorCall(st *State, fv Val, args []Val, c *ssa.CallCommon, pos token.Pos, arrs []string, mname, mpkg string) []Outcome {
 	x.trusted["A-cb-init: a CmdInitializer reconfigures commands only through the public API (modelled as an arbitrary change of the declared heap arrays that re-establishes the invariant callback:"+mname+")"] = true
 	for _, n := range arrs {
-		for _, hn := range x.reg.heapOrd {
+		for _, hn := range x.reg.HeapNames() {
 			if hn == n || (strings.HasSuffix(n, "*") && strings.HasPrefix(hn, strings.TrimSuffix(n, "*"))) {
 				x.heapHavoc(st, hn, true, st.allocCtr)
 			}
@@ -275,10 +276,10 @@ func (x *Exec) callback(st *State, fv *Term, args []Val, pos token.Pos) []Outcom
 }
 
 const (
-	evCall = 1 // a = function value, b = first argument
-	evExit = 2 // a = exit code
-	evOut  = 3 // a = writer, s = text
-	evEnv  = 4
+	evCall  = 1 // a = function value, b = first argument
+	evExit  = 2 // a = exit code
+	evOut   = 3 // a = writer, s = text
+	evEnv   = 4
 	evSet   = 5 // a = ival(value), b = itag(value), s = the string passed to Set
 	evClear = 6
 	evMeth  = 7 // any other logged interface method
@@ -370,7 +371,9 @@ func (x *Exec) callContract(st *State, fn *ssa.Function, con *Contract, args []V
 	}
 	oldTrace := st.trace
 	oldAlloc := st.allocCtr
-	for n, full := range x.effectsOf(fn) {
+	effFn := x.effectsOf(fn)
+	for _, n := range sortedEffKeys(effFn) {
+		full := effFn[n]
 		if n == "$trace" {
 			x.havocTrace(st)
 		} else if n == "$slice" {
@@ -562,7 +565,8 @@ func (x *Exec) callContractSig(st *State, con *Contract, ms *methodStub, recv *T
 	for _, m := range con.Modifies {
 		eff[m] = true
 	}
-	for n, full := range eff {
+	for _, n := range sortedEffKeys(eff) {
+		full := eff[n]
 		if n == "$trace" {
 			// user implementations cannot emit library events: the trace only gains this call's own logged event (A-cb)
 			x.trusted["A-cb: a protocol method of a user value does not call back into the library (its only trace effect is its own logged event)"] = true
@@ -752,4 +756,13 @@ func (x *Exec) builtin(st *State, b *ssa.Builtin, c *ssa.CallCommon, args []Val,
 
 func isStdlib(fn *ssa.Function) bool {
 	return fn.Pkg != nil && !strings.Contains(fn.Pkg.Pkg.Path(), ".")
+}
+
+func sortedEffKeys(m map[string]bool) []string {
+	var ks []string
+	for k := range m {
+		ks = append(ks, k)
+	}
+	sort.Strings(ks)
+	return ks
 }
